@@ -172,7 +172,7 @@ Compact(ty, s) == CASE ty = "orset" -> OSCompact(s) [] ty = "ormap" -> OMCompact
 ApplyOp(ty, s, node, op) ==
   CASE ty = "gcounter"  -> GCInc(s, node, op.n)
     [] ty = "pncounter" -> IF op.k = "inc" THEN PNInc(s, node, op.n) ELSE PNDec(s, node, op.n)
-    [] ty = "flag"      -> FLEnable(s)
+    [] ty = "flag"      -> IF op.k = "enable" THEN FLEnable(s) ELSE s
     [] ty = "lww"       -> LWSet(s, op.x, op.n, node)
     [] ty = "mvreg"     -> MVSet(s, node, op.x)
     [] ty = "orset"     -> IF op.k = "add" THEN OSAdd(s, node, op.x) ELSE OSRemove(s, op.x)
